@@ -51,6 +51,9 @@ def plan(tier, seed):
         for osh, ssh in spaces.shape_pairs(4, 3):
             out.append({"slice": "single-family:P4x3", "mode": "single", "osh": osh, "ssh": ssh, "costs": core[:4] + [core[7]] + cheap_hgt + uneven})
         # two cherries on 4 species leaves: the optimum may host the root strictly below the LCA species of both children
+        # plain solvers only (thl <= lca) on deep species trees with a transfer twice as dear as a duplication
+        for osh, ssh in spaces.shape_pairs(3, 6, min_obj=3, min_sp=6):
+            out.append({"slice": "plain:P3x6", "mode": "plain", "osh": osh, "ssh": ssh, "costs": [(0, 1, 2, 1, 1)]})
         for ssh in spaces.binary_shapes(4):
             out.append({"slice": "single-family:P4balx4", "mode": "single", "osh": ((None, None), (None, None)), "ssh": ssh,
                         "costs": [core[0], cheap_hgt[0]]})
@@ -66,10 +69,10 @@ def plan(tier, seed):
     return out
 
 
-def min_costs(O, S, leafmap, leafsyn, costs, policy="ANY"):
+def min_costs(O, S, leafmap, leafsyn, costs, policy="ANY", algos=None):
     """-> (dict algo -> implementation minimum cost, error)"""
     res = {}
-    for algo in ALGOS:
+    for algo in (algos or ALGOS):
         try:
             if algo in ("lca", "thl"):
                 inp, _, _ = A.build_input(O, S, leafmap, costs)
@@ -92,6 +95,7 @@ def relations(res, costs, single):
     """list of violated relations"""
     bad = []
     le = [("ext_spfs", "base_spfs"), ("superdtl", "base_uspfs"), ("superdtl", "ext_spfs"), ("base_uspfs", "base_spfs"), ("thl", "lca")]
+    le = [(a, b) for a, b in le if a in res and b in res]
     for a, b in le:
         if not res[a] <= res[b]:
             bad.append(f"{a} = {res[a]} > {b} = {res[b]}")
@@ -106,13 +110,13 @@ def relations(res, costs, single):
     return bad, strict
 
 
-def check(O, S, leafmap, leafsyn, costs, single):
+def check(O, S, leafmap, leafsyn, costs, single, plain_only=False):
     strict = False
     for policy in ("ANY", "ALL"):
-        res, err = min_costs(O, S, leafmap, leafsyn, costs, policy)
+        res, err = min_costs(O, S, leafmap, leafsyn, costs, policy, algos=("lca", "thl") if plain_only else None)
         if err:
             return ("exception", err), False
-        bad, strict = relations(res, costs, single)
+        bad, strict = relations(res, costs, single and not plain_only)
         if bad:
             return ("relation", f"policy {policy}: " + "; ".join(bad)), strict
     return None, strict
@@ -130,14 +134,15 @@ def run_shard(shard, tier, seed):
     else:
         gen = ((lm, {v: ("a",) for v in O.leaves}) for lm in spaces.assignments(O, S))
         single = True
+    plain_only = shard["mode"] == "plain"
     for leafmap, leafsyn in gen:
         n_inputs += 1
         for costs in shard["costs"]:
             n_eval += 1
-            bad, strict = check(O, S, leafmap, leafsyn, costs, single)
+            bad, strict = check(O, S, leafmap, leafsyn, costs, single, plain_only)
             if strict:
                 nt += 1
-            case = dict(L.case_json(osh, ssh, leafmap, leafsyn, costs), single_family=single)
+            case = dict(L.case_json(osh, ssh, leafmap, leafsyn, costs), single_family=single, plain_only=plain_only)
             if bad:
                 vtotal += 1
                 if len(viols) < 6 and not any(v["subcheck"] == bad[0] for v in viols):
@@ -145,11 +150,11 @@ def run_shard(shard, tier, seed):
             if not samples:
                 samples.append(case)
     return {"evaluations": n_eval, "inputs": n_inputs, "nontrivial": nt, "samples": samples, "violations": viols,
-            "violations_total": vtotal, "counters": {"solver_runs": n_eval * len(ALGOS)}}
+            "violations_total": vtotal, "counters": {"solver_runs": n_eval * (2 if plain_only else len(ALGOS)) * 2}}
 
 
 def replay(v):
     case = v["case"]
     osh, ssh, O, S, leafmap, leafsyn, costs, rootsyn = L.case_from_json(case)
-    bad, _ = check(O, S, leafmap, leafsyn, costs, case.get("single_family", False))
+    bad, _ = check(O, S, leafmap, leafsyn, costs, case.get("single_family", False), case.get("plain_only", False))
     return {"violated": bool(bad), "detail": (bad[0] + ": " + bad[1]) if bad else None}
